@@ -6,6 +6,20 @@
 #define CEIL_BLOCKS(n) ((n + LANES - 1) / LANES)
 #define FLOOR_BLOCKS(n) (n / LANES)
 
+// The image buffer is only as aligned as the allocator makes it (16 bytes for
+// malloc/realloc), so every access has to be an unaligned load/store.
+static inline __m256i
+ld(const __m256i* p)
+{
+    return _mm256_loadu_si256(p);
+}
+
+static inline void
+st(__m256i* p, __m256i v)
+{
+    _mm256_storeu_si256(p, v);
+}
+
 static void
 bin2(uint8_t* im_, int w, int h)
 {
@@ -16,19 +30,21 @@ bin2(uint8_t* im_, int w, int h)
         __m256i* const row = im + 2 * y * dy;
         for (int x = 0; x < CEIL_BLOCKS(w); ++x) {
             __m256i* const col = row + x;
-            im[x + y * dy] = _mm256_avg_epu8(col[0], col[dy]);
+            st(im + x + y * dy, _mm256_avg_epu8(ld(col), ld(col + dy)));
         }
     }
 
     const __m256i mask = _mm256_set1_epi16(0x00ff);
     for (int x = 0; x < FLOOR_BLOCKS(w * h / 2); ++x) {
-        const __m256i b = _mm256_srli_epi16(im[x], 8);
-        const __m256i v = _mm256_avg_epu8(im[x], b);
-        im[x] = _mm256_and_si256(v, mask);
+        const __m256i b = _mm256_srli_epi16(ld(im + x), 8);
+        const __m256i v = _mm256_avg_epu8(ld(im + x), b);
+        st(im + x, _mm256_and_si256(v, mask));
     }
     for (int x = 0; x < FLOOR_BLOCKS(w * h / 4); ++x) {
-        const __m256i v = _mm256_packus_epi16(im[2 * x], im[2 * x + 1]);
-        im[x] = _mm256_permute4x64_epi64(v, (3 << 6) | (1 << 4) | (2 << 2));
+        const __m256i v =
+          _mm256_packus_epi16(ld(im + 2 * x), ld(im + 2 * x + 1));
+        st(im + x,
+           _mm256_permute4x64_epi64(v, (3 << 6) | (1 << 4) | (2 << 2)));
     }
 }
 #endif
